@@ -6,7 +6,7 @@ use crate::pkt::*;
 use crate::subject::*;
 use serde_json::{json, Value};
 
-const NF: usize = 16;
+const NF: usize = 17;
 /// the filter alphabet; PRINT is println under -s and eprintln otherwise
 const FILTERS: [&str; NF] = [
     "@ true",
@@ -25,6 +25,8 @@ const FILTERS: [&str; NF] = [
     "@ ($1).src == \"02:00:00:00:00:AA\"",
     "@ { m = m + PL; ($1).type = 0x1234 }",
     "@ n > 1 { n = 0 }",
+    // more locals than the program has globals, each read after the others were bound
+    "@ PL > 0 { let a = WL - PL; let b = 14; let c = PL - b; let d = a + c; PRINT(\"{} {} {} {}\", a, b, c, d); m = m + d }",
 ];
 
 #[derive(Clone)]
@@ -62,11 +64,12 @@ fn pattern(f: usize, c: &Ctx) -> bool {
         13 => c.data[6..12] == [2, 0, 0, 0, 0, 0xaa],
         14 => true,
         15 => c.n > 1,
+        16 => c.pl > 0,
         _ => unreachable!(),
     }
 }
 fn has_action(f: usize) -> bool {
-    matches!(f, 9 | 10 | 11 | 12 | 14 | 15)
+    matches!(f, 9 | 10 | 11 | 12 | 14 | 15 | 16)
 }
 fn action(f: usize, c: &mut Ctx) {
     match f {
@@ -80,6 +83,13 @@ fn action(f: usize, c: &mut Ctx) {
             c.data[13] = 0x34;
         }
         15 => c.n = 0,
+        16 => {
+            let (a, b) = (c.wl - c.pl, 14);
+            let cc = c.pl - b;
+            let d = a + cc;
+            c.out.push_str(&format!("{} {} {} {}\n", a, b, cc, d));
+            c.m += d;
+        }
         _ => unreachable!(),
     }
 }
